@@ -34,3 +34,19 @@ package bn256
 //@ ensures implies(result1, X < P() && Y < P())
 //@ ensures implies(result1, cpinv(e.p))
 //@ ensures implies(len(m) != 64, !result1)
+//@ canary ensures implies(result1, X == 0)
+
+// G2: only the canonical-encoding part is stated (coordinates below p); the
+// twist-curve membership test goes through gfP2 arithmetic that is not under
+// contract (its call is havoc).
+//@ func (*G2).Unmarshal
+//@ props C52
+//@ requires e.p == nil
+//@ modifies heap
+//@ let A = spec.beval(row(m), off(m), 32)
+//@ let B = spec.beval(row(m), off(m) + 32, 32)
+//@ let C = spec.beval(row(m), off(m) + 64, 32)
+//@ let D = spec.beval(row(m), off(m) + 96, 32)
+//@ ensures implies(result1, len(m) == 128 && A < P() && B < P() && C < P() && D < P())
+//@ ensures implies(len(m) != 128, !result1)
+//@ canary ensures implies(result1, A == 0)
